@@ -4,7 +4,7 @@ from decimal import Decimal
 from xml.etree.ElementTree import QName
 
 from xsdata.formats.dataclass.models.generics import AnyElement, DerivedElement
-from xsdata.models.datatype import XmlDate, XmlDateTime, XmlDuration, XmlTime
+from xsdata.models.datatype import XmlDate, XmlDateTime, XmlDuration, XmlPeriod, XmlTime
 
 from sim.pool import (
     m_basic as mb,
@@ -100,6 +100,11 @@ OBJS = {
     "fault_v1": (lambda: mb.Fault(code=mb.FaultCode.V1_SENDER, sub=[mb.FaultCode.V1_RECEIVER, mb.FaultCode.V2_SENDER], attr_code=mb.FaultCode.V2_SENDER), "m_basic.Fault"),
     "fault_v2": (lambda: mb.Fault(code=mb.FaultCode.V2_SENDER), "m_basic.Fault"),
     "formats": (lambda: mb.Formats(b64=b"\x00\x10\x83", b16=b"\xab\xcd", dmy=_date(2020, 2, 1), mdy=_date(2020, 1, 2), plain=XmlDate(2020, 1, 2)), "m_basic.Formats"),
+    "edge": (
+        lambda: mb.Edge(ints=[1, -2, 3], levels=[mb.Level.ONE, mb.Level.TWO], notes=["a", None, "c"], year=XmlPeriod("2020"), month_day=XmlPeriod("--02-29"),
+                        inner=mb.Edge.Inner(v=1, w=["x", "y"]), inners=[mb.Edge.Inner(v=2), mb.Edge.Inner(w=["z"])], uri="http://x/y?z=1", big=10**30, flt=float("inf"), dec=Decimal("1E+2")),
+        "m_basic.Edge",
+    ),
     "price": (lambda: mb.Price(value=Decimal("9.99"), currency="USD"), "m_basic.Price"),
     "catalog": (
         lambda: mb.Catalog(
@@ -249,6 +254,12 @@ _x("hw_fault_c_v2", "m_basic.Fault", """<fault xmlns="urn:basic" xmlns:c="urn:fa
 _x("hw_fault_c_unknown", "m_basic.Fault", """<fault xmlns="urn:basic" xmlns:c="urn:fault:v9"><code>c:Sender</code></fault>""")
 _x("hw_fault_rebind", "m_basic.Fault", """<fault xmlns="urn:basic" xmlns:c="urn:fault:v2"><code>c:Sender</code><sub xmlns:c="urn:fault:v1">c:Sender</sub><sub>c:Sender</sub></fault>""")
 _x("hw_formats_same_lexical", "m_basic.Formats", """<formats xmlns="urn:basic"><b64>ABCD</b64><b16>ABCD</b16><dmy>01/02/2020</dmy><mdy>01/02/2020</mdy><plain>2020-01-02</plain></formats>""")
+_x("hw_edge", "m_basic.Edge", """
+<edge xmlns="urn:basic" xmlns:xsi="http://www.w3.org/2001/XMLSchema-instance" levels="1 2  1" month_day="--12-31" fixed_float="NaN" uri=" http://a/b " dec="-0.0">
+  <ints> 1 2
+ 3 </ints><notes>n1</notes><notes xsi:nil="true"/><notes/><year>-0044</year>
+  <inner v="7"><w>a</w><w/></inner><in/><in v="8"><w>b</w></in><fixed_text>keep</fixed_text><big>-123456789012345678901234567890</big><flt>1e400</flt>
+</edge>""")
 _x("hw_catalog", "m_basic.Catalog", """
 <catalog xmlns="urn:basic" updated="2020-01-01T00:00:00"><price currency="JPY">100</price><price>0.5</price><n>1</n><n>-2</n><d>2020-01-01</d></catalog>""")
 _x("hw_point", "m_basic.Point", """<point xmlns="urn:basic" x="3" y="4"><label>a</label><label>b</label></point>""")
@@ -364,6 +375,7 @@ JSON = {
     "js_fault": ('{"code": "{urn:fault:v1}Sender", "sub": ["{urn:fault:v2}Sender"], "attr_code": null}', "m_basic.Fault", None),
     "js_fault_prefixed": ('{"code": "c:Sender", "sub": [], "attr_code": null}', "m_basic.Fault", None),
     "js_formats": ('{"b64": "ABCD", "b16": "ABCD", "dmy": "01/02/2020", "mdy": "01/02/2020", "plain": "2020-01-02"}', "m_basic.Formats", None),
+    "js_edge": ('{"ints": [1, 2], "levels": [1, 2], "notes": ["a", null], "year": "2020", "month_day": "--02-29", "inner": {"v": 1, "w": ["x"]}, "in": [{"v": 2, "w": []}], "fixed_float": "NaN", "fixed_text": "  keep  ", "uri": null, "big": 5, "flt": 1.5, "dec": "2.50"}', "m_basic.Edge", None),
     "js_order": ('{"number": 3, "item": [{"id": 1, "name": "a"}, {"id": 2, "name": "b", "level": 2}], "comment": null, "extra": {"k": "v"}}', "m_basic.Order", None),
     "js_order_list": ('[{"number": 1}, {"number": 2, "comment": "c"}]', "list:m_basic.Order", None),
     "js_zoo": ('{"star": {"name": "rex", "bark": 2}, "animal": [{"name": "tom", "lives": 3}, {"name": "plain"}], "thing": 5, "t": ["a", 1]}', "m_xsi.Zoo", None),
